@@ -104,7 +104,7 @@ def check_case(case):
         for gname, grps in [("default", None), ("default-explicit", T.DEFAULT_GROUPS)] + USER_GROUPS:
             calls += 1
             try:
-                res = o.get_linear_sequence_composition(w) if grps is None else o.get_linear_sequence_composition(w, [list(g) for g in grps])
+                res = o.get_linear_sequence_composition(w) if grps is None else o.get_linear_sequence_composition(w, [(list(g) if isinstance(g, list) else g) for g in grps])
             except Exception as e:  # noqa
                 if w <= N:
                     v("rejects-valid-window:composition", "%s: get_linear_sequence_composition(%d,%s) raised %r" % (seq, w, gname, e),
